@@ -54,6 +54,9 @@ func nontrivial(r *Runner) bool {
 var nontrivialRules = map[string]func(r *Runner) bool{
 	"C01": func(r *Runner) bool { return r.Cnt["overwrites"]+r.Cnt["deletes_present"] > 0 && r.Cnt["gets"] > 1 },
 	"C02": func(r *Runner) bool { return r.Cnt["restarts"] > 0 && len(r.States) > 2 },
+	"C03": func(r *Runner) bool { return r.Cnt["images_ok"] > 3 && len(r.States) > 2 },
+	"C04": func(r *Runner) bool { return r.Cnt["images_ok"] > 3 && r.Cnt["batches"] > 0 },
+	"C07": func(r *Runner) bool { return r.Cnt["images_ok"] > 3 && r.Cnt["merges"] > 0 },
 	"C05": func(r *Runner) bool { return r.Cnt["batches"] > 0 && r.Cnt["batch_repeat_key"]+r.Cnt["batch_get_from_db"] > 0 },
 	"C06": func(r *Runner) bool { return r.Cnt["merges"] > 0 && r.Cnt["restarts_after_merge"] > 0 },
 	"C10": func(r *Runner) bool { return r.Cnt["iter_sessions_multi"] > 0 },
@@ -70,6 +73,9 @@ var nontrivialRules = map[string]func(r *Runner) bool{
 var NontrivialRuleText = map[string]string{
 	"C01": "case has >=1 overwrite or delete of a present key and >=2 judged reads; distinct = distinct hash of the executed case (config + concrete operations)",
 	"C02": "case has >=1 restart and >=2 acknowledged mutations; distinct = distinct hash of the executed case",
+	"C03": "run has >=2 acknowledged mutations and >=4 crash images whose recovery was judged; distinct = distinct hash of the executed case; every journal position of a run is a process-crash image, a seeded subset also gets power-loss cuts",
+	"C04": "run has >=1 committed batch and >=4 judged crash images; distinct = distinct case hash",
+	"C07": "run has >=1 successful Merge and >=4 judged crash images inside Merge / the adopting Open (plus their second-level images); distinct = distinct case hash",
 	"C05": "case has >=1 committed batch with a repeated key or a read that falls through to the database; distinct = distinct case hash",
 	"C06": "case has >=1 successful Merge followed by an adopting restart; distinct = distinct case hash",
 	"C10": "case has >=1 iterator session over >=2 visible keys; distinct = distinct case hash",
